@@ -6,7 +6,7 @@ import random
 from typing import Any
 
 from harness.common import Ck
-from harness.c07_util import World
+from harness.c07_util import World, Hang, time_limit
 from translate import c07_index_sites, c07_index_shapes, c07_index_del, c07_index_listops, c07_index_glue
 
 MANIFEST = dict(
@@ -20,7 +20,7 @@ UNI_NAMES = ['ß', 'SS', 'ss', 'İ', 'a', 'A', '', 'worldspawn', 'WorldSpawn']
 CN_KEYS = ['classname', 'classname', 'Classname', 'CLASSNAME']
 TN_KEYS = ['targetname', 'targetname', 'TargetName', 'TARGETNAME']
 OTHER_KEYS = ['origin', 'Origin', 'x']
-QUERIES = ['a', 'A', 'ab', 'AB', 'a*', 'A*', '*', '', 'a1', 'worldspawn', 'WORLDSPAWN', 'ab*', 'info_null', 'b']
+QUERIES = ['a', 'A', 'ab', 'AB', 'a*', 'A*', '*', '', 'a1', 'worldspawn', 'WORLDSPAWN', 'ab*', 'info_null', 'b', 'ß', 'S*']
 QUERIES_SH = ['a', 'A*', 'ab', 'worldspawn', '']
 ADD_FORMS = ['gen', 'iter', 'map', 'list', 'tuple']      # how the iterable is handed to VMF.add_ents
 MAX_OBJS = 6
@@ -182,20 +182,31 @@ def gen_ops(rng: random.Random, n: int, names=NAMES, allow_iter: bool = True) ->
 
 
 # ------------------------------------------------------------------------------------------------ oracle
+HISTORY_LIMIT_S = 20.0     # a history runs in milliseconds; only an endless loop in the implementation reaches this
+HANGS = [0]                # histories that hit the limit in this run; after three the streams stop early (each costs 20 s)
+
+
 def first_problem(ops, queries=QUERIES):
     """Run a history on the implementation; scan after every model-level step.
-    Returns None or (step_index, step_op, problem_tuple)."""
+    Returns None or (step_index, step_op, problem_tuple).  An exception escaping the public API and an operation that
+    does not come back (Hang) are problems of the step during which they happen."""
     w = World(2)
     i = 0
-    for op in ops:
-        try:
-            for flat, _err in w.steps(op):
-                for m in range(len(w.maps)):
-                    for p in w.scan_problems(m, queries):
-                        return i, flat, p
-                i += 1
-        except Exception as exc:   # noqa: BLE001 - any exception escaping the public API in a legal history
-            return i, op, ('api', 'raised', {'error': f'{type(exc).__name__}: {exc}'})
+    op = None
+    try:
+        with time_limit(HISTORY_LIMIT_S):
+            for op in ops:
+                try:
+                    for flat, _err in w.steps(op):
+                        for m in range(len(w.maps)):
+                            for p in w.scan_problems(m, queries):
+                                return i, flat, p
+                        i += 1
+                except Exception as exc:   # noqa: BLE001 - any exception escaping the public API in a legal history
+                    return i, op, ('api', 'raised', {'error': f'{type(exc).__name__}: {exc}'})
+    except Hang as exc:
+        HANGS[0] += 1
+        return i, op, ('api', 'hang', {'error': f'{exc}'})
     return None
 
 
@@ -299,6 +310,9 @@ def search(ck: Ck) -> None:
     n = 30000 if ck.thorough else ck.budget(1500, 4000)
     found: dict[str, tuple] = {}
     for i in range(n):
+        if HANGS[0] >= 3:
+            ck.notes.append(f'oracle search stopped after {i} histories: the implementation did not come back {HANGS[0]} times')
+            break
         if i < len(CORPUS):
             ops = CORPUS[i]
         else:
@@ -325,7 +339,10 @@ def search(ck: Ck) -> None:
                 return False
             q = first_problem(h)
             return q is not None and classify(q[1], q[2]) == key
-        small = shrink(ops[:p[0] + 1] if len(ops) > p[0] + 1 and same(ops[:p[0] + 1]) else ops, same)
+        if p[2][1] == 'hang':      # every candidate that still hangs costs the whole time limit: keep the prefix, do not shrink
+            small = [o for o in ops[:ops.index(p[1]) + 1]] if p[1] in ops else ops
+        else:
+            small = shrink(ops[:p[0] + 1] if len(ops) > p[0] + 1 and same(ops[:p[0] + 1]) else ops, same)
         if key not in found or len(small) < len(found[key][0]):
             found[key] = (small, first_problem(small))
     for key, (ops, p) in sorted(found.items()):
@@ -335,7 +352,7 @@ def search(ck: Ck) -> None:
 
 
 # ------------------------------------------------------------------------------------------------ correspondence
-IMPORTS = ['stdpp.gmap', 'stdpp.sets', 'stdpp.list', 'Coq.NArith.NArith', 'SV.SM.IndexModel']
+IMPORTS = ['stdpp.gmap', 'stdpp.sets', 'stdpp.list', 'Coq.NArith.NArith', 'SV.SM.IndexModel', 'SV.SM.IndexFold']
 PRE = r"""
 Fixpoint ins_nat (x : nat) (l : list nat) : list nat :=
   match l with [] => [x] | y :: r => if Nat.leb x y then x :: l else y :: ins_nat x r end.
@@ -359,7 +376,7 @@ Fixpoint first_bad (n : nat) (steps : list (wop * nat * exp)) (w : list mstate) 
   match steps with
   | [] => None
   | (o, m, x) :: r =>
-      let '(w', er) := wstep ascii_fold o w in
+      let '(w', er) := wstep cf o w in
       match w' !! m with
       | Some st => if check_obs st er x then first_bad (S n) r w' else Some n
       | None => Some n
@@ -370,7 +387,7 @@ Definition w2 : list mstate := [init; init].
    the yields must be the snapshot (any order) followed by the late additions (any order) *)
 Definition sort_nats (l : list nat) : list nat := foldr ins_nat [] l.
 Definition iter_ok (fl : list wop) (pos m : nat) (cls : bool) (kc : str) (kt : option str) (ys : list nat) : bool :=
-  let w0 := wrun ascii_fold (take (S pos) fl) w2 in
+  let w0 := wrun cf (take (S pos) fl) w2 in
   let getset (w : list mstate) : gset nat :=
     match w !! m with
     | Some st => if cls then ix_get (by_class st) kc else ix_get (by_target st) kt
@@ -378,11 +395,27 @@ Definition iter_ok (fl : list wop) (pos m : nat) (cls : bool) (kc : str) (kt : o
     end in
   let s0 := getset w0 in
   let n0 := size s0 in
-  let w1 := wrun ascii_fold (take n0 (drop (S pos) fl)) w0 in
+  let w1 := wrun cf (take n0 (drop (S pos) fl)) w0 in
   eqb_ln (sort_nats (take n0 ys)) (sorted_elems s0)
   && eqb_ln (sort_nats (drop n0 ys)) (sorted_elems (getset w1 ∖ s0)).
-Definition sq (s : list nat) (q : str) (st : mstate) : bool := eqb_ln (sorted_elems (search ascii_fold q st)) s.
+Definition sq (s : list nat) (q : str) (st : mstate) : bool := eqb_ln (sorted_elems (search cf q st)) s.
 """
+
+
+def casefold_table(strings) -> tuple[list[tuple[int, list[int]]], list[str]]:
+    """The table [non-ASCII code point -> code points of chr(c).casefold()] for every code point of `strings`, closed under
+    itself; and the strings whose casefold is NOT the concatenation of the per-code-point foldings (expected: none)."""
+    tab: dict[int, list[int]] = {}
+    todo = [ord(ch) for s in strings for ch in s if ord(ch) >= 128]
+    while todo:
+        c = todo.pop()
+        if c in tab:
+            continue
+        tab[c] = [ord(x) for x in chr(c).casefold()]
+        todo += [x for x in tab[c] if x >= 128 and x not in tab]
+    tab = {c: l for c, l in tab.items() if l != [c]}           # absent = unchanged (as for ASCII non-letters)
+    odd = [s for s in strings if s.casefold() != ''.join(ch.casefold() for ch in s)]
+    return sorted(tab.items()), odd
 
 
 def _strtab(tab: dict, s: str) -> str:
@@ -466,6 +499,7 @@ def observed_map(w: World, op) -> int:
 
 
 RAISED: list = []
+CF_TABLES: list = []
 
 
 def run_case(ops) -> tuple[list, list, list]:
@@ -474,32 +508,37 @@ def run_case(ops) -> tuple[list, list, list]:
     w = World(2)
     steps = []
     iters = []
-    for op in ops:
-        pos = len(steps)
-        try:
-            for flat, err in w.steps(op):
-                m = observed_map(w, flat)
-                steps.append((flat, m, err, w.observe(m)))
-        except Exception as exc:   # noqa: BLE001 - an exception escaping the API: the model has none, report as disagreement
-            RAISED.append((ops, f'{type(exc).__name__}: {exc}'))
-            break
-        if op[0] == 'iter' and op[2] in ('class', 'target') and not w.iter_truncated:
-            iters.append((pos, op[1], op[2], op[3], list(w.iter_yields)))
     queries = []
-    for m in range(len(w.maps)):
-        for q in QUERIES:
-            try:
-                got = sorted({w.eid(m, e) for e in w.maps[m].search(q)})
-            except Exception as exc:   # noqa: BLE001
-                RAISED.append((ops, f'search({q!r}): {type(exc).__name__}: {exc}'))
-                got = [-1]
-            queries.append((m, q, got))
+    try:
+        with time_limit(HISTORY_LIMIT_S):
+            for op in ops:
+                pos = len(steps)
+                try:
+                    for flat, err in w.steps(op):
+                        m = observed_map(w, flat)
+                        steps.append((flat, m, err, w.observe(m)))
+                except Exception as exc:   # noqa: BLE001 - an exception escaping the API: the model has none, report as disagreement
+                    RAISED.append((ops, f'{type(exc).__name__}: {exc}'))
+                    break
+                if op[0] == 'iter' and op[2] in ('class', 'target') and not w.iter_truncated:
+                    iters.append((pos, op[1], op[2], op[3], list(w.iter_yields)))
+            for m in range(len(w.maps)):
+                for q in QUERIES:
+                    try:
+                        got = sorted({w.eid(m, e) for e in itertools.islice(w.maps[m].search(q), 200)})
+                    except Exception as exc:   # noqa: BLE001
+                        RAISED.append((ops, f'search({q!r}): {type(exc).__name__}: {exc}'))
+                        got = [-1]
+                    queries.append((m, q, got))
+    except Hang as exc:
+        HANGS[0] += 1
+        RAISED.append((ops, f'Hang: {exc}'))
     return steps, queries, iters
 
 
 PRE_SHAPES = r"""
 Definition sq2 (s : list nat) (q : str) (st : mstate) : bool :=
-  eqb_ln (sorted_elems (search_sh ascii_fold gen_search_shape q st).1) s.
+  eqb_ln (sorted_elems (search_sh cf gen_search_shape q st).1) s.
 """
 
 
@@ -508,12 +547,23 @@ def corr(ck: Ck, escalate: bool = False, shapes: bool = False) -> None:
     n = 2500 if ck.thorough else (600 if (escalate or ck.tie_broken) else 200)
     cases = []
     RAISED.clear()
+    CF_TABLES.clear()
+    HANGS[0] = 0
     seqs: list = list(CORPUS)
     if ck.thorough:
         seqs += list(exhaustive_short())
+    n_uni = 0
     while len(seqs) < n:
-        seqs.append(gen_ops(ck.rng, ck.rng.choice([3, 6, 12, 25, 40])))
+        # round 4: every fifth random history draws its names from the non-ASCII alphabet (ß / SS / ss / İ ...): the model is
+        # instantiated with table_fold <CPython's casefold table of the batch> instead of ASCII lower-casing
+        uni = len(seqs) % 5 == 4
+        n_uni += uni
+        seqs.append(gen_ops(ck.rng, ck.rng.choice([3, 6, 12, 25, 40]), UNI_NAMES if uni else NAMES))
+    ck.count('correspondence_non_ascii_histories', n_uni)
     for ops in seqs:
+        if HANGS[0] >= 3:
+            ck.notes.append(f'correspondence stopped after {len(cases)} histories: the implementation did not come back {HANGS[0]} times')
+            break
         steps, queries, iters = run_case(ops)
         cases.append((ops, steps, queries, iters))
         ck.count('correspondence_index_iterations', len(iters))
@@ -554,8 +604,8 @@ def corr(ck: Ck, escalate: bool = False, shapes: bool = False) -> None:
             if shapes:   # VMF.search as written (generated program over the defaultdict semantics), 5 of the queries
                 qs2 = ' && '.join(f'match w !! {m} with Some st => sq2 {_c_nats(r)} {_strtab(tab, q)} st | None => false end'
                                   for m, q, r in queries if q in QUERIES_SH)
-                q2lits.append(f'(let w := wrun ascii_fold {flat_ops} w2 in {qs2})')
-            qlits.append(f'(let w := wrun ascii_fold {flat_ops} w2 in {qs})')
+                q2lits.append(f'(let w := wrun cf {flat_ops} w2 in {qs2})')
+            qlits.append(f'(let w := wrun cf {flat_ops} w2 in {qs})')
             if iters:
                 chk = ' && '.join(
                     f'iter_ok fl {pos} {m} {"true" if which == "class" else "false"} '
@@ -565,11 +615,16 @@ def corr(ck: Ck, escalate: bool = False, shapes: bool = False) -> None:
                 ilits.append(f'(let fl := {flat_ops} in {chk})')
             else:
                 ilits.append('true')
-        pre = PRE + (PRE_SHAPES if shapes else '') + ''.join(f'Definition {name} : str := {_coq_str(s)}.\n' for s, name in tab.items())
+        cft, odd = casefold_table(list(tab))
+        CF_TABLES.append((cft, odd))
+        cfdef = ('Definition cf_tab : list (N * list N) := [' + '; '.join(f'({c}, [{"; ".join(map(str, l))}])' for c, l in cft) + ']%N.\n'
+                 'Definition cf : str -> str := table_fold cf_tab.\n')
+        pre = cfdef + PRE + (PRE_SHAPES if shapes else '') + ''.join(f'Definition {name} : str := {_coq_str(s)}.\n' for s, name in tab.items())
         exprs = ['[' + '; '.join(f'first_bad 0 {l} w2' for l in lits) + ']',
                  '[' + '; '.join(qlits) + ']',
                  '[' + '; '.join(ilits) + ']',
-                 '[' + '; '.join(q2lits) + ']']
+                 '[' + '; '.join(q2lits) + ']',
+                 'tab_non_ascii cf_tab && tab_closed cf_tab']
         imports = IMPORTS + (['SV.SM.IndexShapes', 'SV.Gen.IndexShapes_gen'] if shapes else [])
         return lo, ck.coq_eval(imports, exprs, name=f'index{lo}', preamble=pre, timeout=900)
 
@@ -594,6 +649,18 @@ def corr(ck: Ck, escalate: bool = False, shapes: bool = False) -> None:
         for i, r in enumerate(parse_coq_nested(vals[3])):
             if r is not True:
                 bad_q2.append((lo + i, None))
+    bad_tab = [lo for lo, vals in results if vals[4].strip() != 'true']
+    odd = sorted({s for _, o in CF_TABLES for s in o})
+    union = sorted({(c, tuple(l)) for t, _ in CF_TABLES for c, l in t})
+    ascii_ok = all(chr(c).casefold() == (chr(c + 32) if 65 <= c <= 90 else chr(c)) for c in range(128))
+    ck.obligation('correspondence:casefold_is_table_fold', not bad_tab and not odd and ascii_ok,
+                  f'str.casefold on the strings of the correspondence is code point by code point ({len(odd)} exceptions), ASCII lower-casing '
+                  f'on ASCII ({ascii_ok}), and the table of the non-ASCII code points used ({[(hex(c), [hex(x) for x in l]) for c, l in union]}) has '
+                  f'non-ASCII keys and folded images (tab_non_ascii && tab_closed, evaluated by Coq per batch: {len(bad_tab)} failures): '
+                  f'the hypotheses of c07_table_fold_ok / c07_table_fold_idem, so the theorems apply to the folding the model was run with')
+    if bad_tab or odd or not ascii_ok:
+        ck.tie_broken.append('correspondence: str.casefold is not the table folding the model was instantiated with')
+    ck.extra['casefold_table'] = [[c, list(l)] for c, l in union]
     ck.obligation('correspondence:index_ops', not bad,
                   f'{len(cases)} histories / {sum(len(c[1]) for c in cases)} steps: after every step error code, entity list, '
                   f'spawn, all key lists, by_class and by_target of model (vm_compute) vs implementation: {len(bad)} disagreements')
@@ -779,13 +846,30 @@ def _assumptions_in_background(ck: Ck, props_file: str):
     names = re.findall(r'^\s*(?:Theorem|Lemma|Corollary)\s+([A-Za-z0-9_\']+)', (ROCQ / props_file).read_text(), re.M)
     mod = 'SV.' + props_file[:-2].replace('/', '.')
     body0 = f'Require Import {mod}.\n' + ''.join(f'Print Assumptions {n}.\n' for n in names)
-    pool = ThreadPoolExecutor(max_workers=1)
+    # four coqc runs side by side (Print Assumptions walks the whole dependency cone of every theorem: ~1 s each)
+    n_chunks = 4
+    chunks = [names[i::n_chunks] for i in range(n_chunks)]
+    pool = ThreadPoolExecutor(max_workers=n_chunks)
     orig = ck.coq_scratch
-    fut = pool.submit(orig, body0, 'assumptions')
+    futs = [pool.submit(orig, f'Require Import {mod}.\n' + ''.join(f'Print Assumptions {n}.\n' for n in ch), f'assumptions{i}')
+            for i, ch in enumerate(chunks) if ch]
 
     def finish() -> None:
         def cached(body: str, name: str = 'scratch', timeout: int = 600):
-            return fut.result() if body == body0 else orig(body, name, timeout)
+            if body != body0:
+                return orig(body, name, timeout)
+            res = [f.result() for f in futs]
+            if any(rc != 0 for rc, _ in res):
+                return max(rc for rc, _ in res), ''.join(out for _, out in res)
+            # put the per-theorem blocks back into the order of the file
+            from harness.common import _split_assumptions
+            per: dict[str, list] = {}
+            for ch, (_, out) in zip([c for c in chunks if c], res):
+                blocks = _split_assumptions(out, len(ch))
+                if len(blocks) != len(ch):
+                    return orig(body, name, timeout)
+                per.update(zip(ch, blocks))
+            return 0, ''.join('Closed under the global context\n' if not per[n] else 'Axioms:\n' + ''.join(f'{a}\n' for a in per[n]) for n in names)
         ck.coq_scratch = cached          # type: ignore[method-assign]
         try:
             ck.theorems(props_file)
